@@ -84,6 +84,8 @@ func (m *baseMocker) applyByName(funcName string, callback interface{}) {
 	m.guard = newPatchMockGuard(guard)
 	m.guard.Apply()
 	m.imp = callback
+	// 重新 Apply 之后该 mocker 重新生效(之前可能被 Cancel/Reset 过)
+	m.canceled = false
 }
 
 // applyByFunc 根据函数应用 mock
@@ -96,6 +98,8 @@ func (m *baseMocker) applyByFunc(funcDef interface{}, callback interface{}) {
 	m.guard = newPatchMockGuard(guard)
 	m.guard.Apply()
 	m.imp = callback
+	// 重新 Apply 之后该 mocker 重新生效(之前可能被 Cancel/Reset 过)
+	m.canceled = false
 	m.funcDef = funcDef
 }
 
@@ -109,6 +113,8 @@ func (m *baseMocker) applyByMethod(structDef interface{}, method string, callbac
 	m.guard = newPatchMockGuard(guard)
 	m.guard.Apply()
 	m.imp = callback
+	// 重新 Apply 之后该 mocker 重新生效(之前可能被 Cancel/Reset 过)
+	m.canceled = false
 	m.funcDef = reflect.ValueOf(structDef).MethodByName(method).Interface()
 }
 
